@@ -109,3 +109,20 @@ CHECKS['C06'] = dict(
              plan={'quick': 'bounds_prog=3200,bounds_api=1200', 'thorough': 'bounds_prog=300000,bounds_api=60000'}),
     ],
 )
+
+CHECKS['C05'] = dict(
+    level='exploration',
+    rule='short programs (1-64 instruction words from ProgramGen: natural / branchy / fp-heavy with boundary-biased operands and up to 8 rapidcheck-generated overrides) on '
+         'machine states reachable per spec 4.6 (r = generated 64-bit values, f/e = conversions of generated 8-byte memory values under a generated configuration block, a = '
+         'configured), both versions, 4 entry rounding modes, 5 scratchpad classes; implementation decode+execute (compileInstruction/executeInstruction) vs the spec model one '
+         'instruction at a time: r0-r7, f, e bit patterns, touched scratchpad bytes, rounding mode, next pc; plus randomx_vm::initialize vs spec 4.5 and the 4.3.1/4.3.2 load '
+         'conversions; FP invariants on implementation values (A in [1,2^32), E > 0, no NaN, no subnormal). Stage 2: whole programs (2048 iterations, loop of 4.6.2 incl. v2 mp alias '
+         'and AES mix) through the real InterpretedVm vs the model. Non-trivial: step whose (instruction type, src==dst, mod, immediate class, version) tuple is new',
+    assumptions=COMMON_ASSUME + ['model/ref_vm.cpp is a correct reading of specs.md ch.4-5; the opcode order is the order of Tables 5.2.1-5.5.1 (pinned; the 10 published digests depend on it)'],
+    stages=[
+        dict(name='step', harness=H('c05', ['harness/c05_step.cpp'], model=True, cflags=['-fno-access-control']),
+             plan={'quick': 'step=60000', 'thorough': 'step=6000000'}),
+        dict(name='prog', harness=H('c05p', ['harness/c05_prog.cpp'], model=True, ldflags=PROG_LD),
+             plan={'quick': 'prog_vs_model=480', 'thorough': 'prog_vs_model=40000'}),
+    ],
+)
